@@ -656,3 +656,15 @@ func (w *World) AsWrittenByPredecessor() {
 	}
 	w.App.UpgradeKeeper.SetModuleVersionMap(ctx, vm)
 }
+
+// StartOnDatabase constructs the application the way a node does on an existing database (store loaders chosen by the
+// binary itself from upgrade-info.json in home/data) and loads the latest version; a panic or error is returned.
+func StartOnDatabase(db dbm.DB, home string) (err error) {
+	defer func() {
+		if r := recover(); r != nil {
+			err = fmt.Errorf("panic while starting: %v", r)
+		}
+	}()
+	a := construct(db, home, 0, false, NodeConfig{})
+	return a.LoadLatestVersion()
+}
